@@ -6,6 +6,17 @@ def E(name, src, model=None, quick=None, thorough=None, **kw):
     return d
 
 PROPS = {
+    "C14": dict(
+        lean_props=["H4.Props.C14"],
+        engines=[
+            E("ro", "e_ro.c", model="ro", wrap=True, quick=dict(cases=240, chunk=10), thorough=dict(cases=4000, seeds=4, chunk=50, timeout=1800)),
+        ],
+        trusted_base=["GNU ld --wrap interposition of fopen/fread/fwrite/fseek/fflush/fclose (harness/wrap.h): a write REQUEST is logged before stdio sees it",
+                      "V/VS/SD/GR/AN layers are not modelled: that they reach the file only through the mutating H operations is checked by engine ro (write log, byte comparison), not proved",
+                      "special-element internals (linked-block, external, compressed, chunked) beyond their access checks are not modelled (result `pass`)"],
+        assumptions=["the operating system lets the process open the file for update (no OS-level permission failure); DFACC_CREATE opens are outside the property",
+                     "access rights are per FILE RECORD (all file ids of one path share it): read-only = no live Hopen of that path ever asked for DFACC_WRITE"],
+    ),
     "C01": dict(
         lean_props=["H4.Props.C01", "H4.Props.C01Ext"],
         engines=[
@@ -213,15 +224,4 @@ PROPS = {
 
 # merged but not yet claimed (waiting for the model to follow fix: commits in /repo); runnable with bin/check, not in MANIFEST
 PENDING = {
-    "C14": dict(
-        lean_props=["H4.Props.C14"],
-        engines=[
-            E("ro", "e_ro.c", model="ro", wrap=True, quick=dict(cases=240, chunk=10), thorough=dict(cases=4000, seeds=4, chunk=50, timeout=1800)),
-        ],
-        trusted_base=["GNU ld --wrap interposition of fopen/fread/fwrite/fseek/fflush/fclose (harness/wrap.h): a write REQUEST is logged before stdio sees it",
-                      "V/VS/SD/GR/AN layers are not modelled: that they reach the file only through the mutating H operations is checked by engine ro (write log, byte comparison), not proved",
-                      "special-element internals (linked-block, external, compressed, chunked) beyond their access checks are not modelled (result `pass`)"],
-        assumptions=["the operating system lets the process open the file for update (no OS-level permission failure); DFACC_CREATE opens are outside the property",
-                     "access rights are per FILE RECORD (all file ids of one path share it): read-only = no live Hopen of that path ever asked for DFACC_WRITE"],
-    ),
 }
